@@ -361,3 +361,135 @@ func isSlicesContains(f *ssa.Function) bool {
 	}
 	return o.Pkg != nil && o.Pkg.Pkg.Path() == "slices" && o.Name() == "Contains"
 }
+
+// equalityClosureSearch: the call is slices.ContainsFunc / slices.IndexFunc (list, func(e) bool { return X == conv(e) })
+// — a membership test by equality written with a predicate. Returns the closure and the value the element is
+// compared with (as seen inside the closure), nil if the call has another shape.
+func equalityClosureSearch(cl *ssa.Call) (*ssa.Function, ssa.Value) {
+	g := cl.Call.StaticCallee()
+	if g == nil {
+		return nil, nil
+	}
+	o := g.Origin()
+	if o == nil {
+		o = g
+	}
+	if o.Pkg == nil || o.Pkg.Pkg.Path() != "slices" || (o.Name() != "ContainsFunc" && o.Name() != "IndexFunc") || len(cl.Call.Args) != 2 {
+		return nil, nil
+	}
+	var fn *ssa.Function
+	switch x := cl.Call.Args[1].(type) {
+	case *ssa.MakeClosure:
+		fn, _ = x.Fn.(*ssa.Function)
+	case *ssa.Function:
+		fn = x
+	}
+	if fn == nil || len(fn.Params) != 1 || fn.Blocks == nil {
+		return nil, nil
+	}
+	var other ssa.Value
+	for _, r := range returnsOf(fn) {
+		bo, ok := r.Results[0].(*ssa.BinOp)
+		if !ok || bo.Op != token.EQL {
+			return nil, nil
+		}
+		isElem := func(v ssa.Value) bool {
+			for d := 0; d < 3; d++ {
+				switch y := v.(type) {
+				case *ssa.Convert:
+					v = y.X
+				case *ssa.ChangeType:
+					v = y.X
+				}
+			}
+			return v == ssa.Value(fn.Params[0])
+		}
+		switch {
+		case isElem(bo.X) && !isElem(bo.Y):
+			other = bo.Y
+		case isElem(bo.Y) && !isElem(bo.X):
+			other = bo.X
+		default:
+			return nil, nil
+		}
+	}
+	return fn, other
+}
+
+// globalMapUpdates: the (key, value) stores of the composite literal a package-level map variable is initialised
+// with (the variable must be assigned exactly once, in the package initialiser).
+func (c *Ctx) globalMapUpdates(g *ssa.Global) []*ssa.MapUpdate {
+	if g == nil || g.Pkg == nil {
+		return nil
+	}
+	init := g.Pkg.Func("init")
+	if init == nil {
+		return nil
+	}
+	var mm ssa.Value
+	n := 0
+	for _, f := range c.Funcs {
+		forEachInstr(f, func(in ssa.Instruction) {
+			if st, ok := in.(*ssa.Store); ok && st.Addr == ssa.Value(g) {
+				n++
+				if f == init {
+					mm = st.Val
+				}
+			}
+		})
+	}
+	if n == 0 {
+		forEachInstr(init, func(in ssa.Instruction) {
+			if st, ok := in.(*ssa.Store); ok && st.Addr == ssa.Value(g) {
+				n++
+				mm = st.Val
+			}
+		})
+	}
+	if n != 1 {
+		return nil
+	}
+	if ct, ok := mm.(*ssa.ChangeType); ok {
+		mm = ct.X
+	}
+	m, ok := mm.(*ssa.MakeMap)
+	if !ok {
+		return nil
+	}
+	var out []*ssa.MapUpdate
+	for _, r := range *m.Referrers() {
+		if mu, isU := r.(*ssa.MapUpdate); isU {
+			out = append(out, mu)
+		}
+	}
+	return out
+}
+
+// globalTableLookup: f looks key (path accepted by scrut) up in a package-level map literal; returns the global and
+// the lookup instruction, nil if f has no such lookup.
+func (c *Ctx) globalTableLookup(f *ssa.Function, scrut func(path string) bool) (*ssa.Global, *ssa.Lookup) {
+	var g *ssa.Global
+	var lk *ssa.Lookup
+	forEachInstr(f, func(in ssa.Instruction) {
+		x, ok := in.(*ssa.Lookup)
+		if !ok || !scrut(c.Path(x.Index, nil)) {
+			return
+		}
+		if ld, isLd := x.X.(*ssa.UnOp); isLd && ld.Op == token.MUL {
+			if gg, isG := ld.X.(*ssa.Global); isG && len(c.globalMapUpdates(gg)) > 0 {
+				g, lk = gg, x
+			}
+		}
+	})
+	return g, lk
+}
+
+// structOfValue: the allocation a struct value stored into a map literal was built in (`*new T (complit)`).
+func structOfValue(v ssa.Value) *ssa.Alloc {
+	if ld, ok := v.(*ssa.UnOp); ok && ld.Op == token.MUL {
+		if a, isA := ld.X.(*ssa.Alloc); isA {
+			return a
+		}
+	}
+	return nil
+}
